@@ -114,6 +114,72 @@ def run_case(rep, rng, ci, dev, cfg, model_records):
     return recs
 
 
+def mu_boundary_corr(rep, rng, dev, tier, numpy_scalars=False):
+    """update_mu_boundary (with its change-only cache) driven with scripted currents vs Model.Step.update_mu_boundary."""
+    from tdgl.solver.solver import TDGLSolver
+    from .common import flit, coq_list
+    names_all = [t.name for t in dev.terminals]
+    base = [rng.choice([1.0, 2.5, 0.3]) for _ in names_all[:-1]]
+    base.append(-sum(base))
+    nseq = 12 if tier == "quick" else 60
+    script = []
+    for k in range(nseq):
+        r = rng.random()
+        s = 0.0 if r < 0.25 else (script[-1] if (r < 0.45 and script) else rng.choice([1.0, 0.5, -2.0, 1e-3]))
+        script.append(s)
+
+    def cur(t):
+        k = min(int(round(t)), nseq - 1)
+        return {nm: (np.float64(script[k] * b) if numpy_scalars else script[k] * b) for nm, b in zip(names_all, base)}
+
+    opts = runs.make_options(None, solve_time=1.0)
+    solver = TDGLSolver(dev, opts, terminal_currents=cur)
+    info = solver.terminal_info
+    order = solver.terminal_names
+    snaps = []
+    Ilits = []
+    kinds = {type(v) for v in solver.current_func(0.0).values()}
+    if kinds == {float}:
+        comp = "true"        # CPython >= 3.12: builtin sum over exact floats is Neumaier-compensated
+    elif float not in kinds:
+        comp = "false"       # numpy scalars: plain left-to-right additions
+    else:
+        rep.not_shown("correspondence: the scaled terminal currents mix exact floats and other scalars; the summation path is not modelled",
+                      {"types": sorted(map(str, kinds))})
+        return 1
+    for k in range(nseq):
+        solver.update_mu_boundary(float(k))
+        snaps.append(np.array(solver.mu_boundary, copy=True))
+        scaled = solver.current_func(float(k))
+        Ilits.append(coq_list([flit(scaled[nm]) for nm in order]))
+    nb = len(solver.mu_boundary)
+    terms = coq_list([f"Build_terminal OpsF {flit(t.length)} {coq_list([str(int(b)) + '%nat' for b in t.boundary_edge_indices], per_line=20)}"
+                      for t in info], per_line=1)
+    t = ("From Coq Require Import PrimFloat List.\nImport ListNotations.\nFrom PyTdgl Require Import Base.Ops Model.Step.\nOpen Scope float_scope.\n"
+         f"Definition ts := {terms}.\n"
+         "Fixpoint scan (st : list float * (nat -> float)) (l : list (list float)) : list (list float) :=\n"
+         "  match l with [] => [] | cur :: tl => let st' := update_mu_boundary OpsF COMP ts cur st in\n"
+         f"    map (snd st') (seq 0 {nb}) :: scan st' tl end.\n"
+         f"Eval vm_compute in scan (repeat 0 (length ts), fun _ => 0) {coq_list(Ilits, per_line=1)}.\n")
+    t = t.replace("COMP", comp)
+    rc, out = common.run_model("c01_mub_" + comp, t)
+    if rc != 0:
+        rep.not_shown("correspondence: update_mu_boundary model evaluation failed", {"log": out[-1200:]})
+        return 1
+    res = common.parse_nested(common.eval_block(out))[0]
+    bad = 0
+    for k, (m, s) in enumerate(zip(res, snaps)):
+        if not np.array_equal(np.array(m, dtype=float), s):
+            bad += 1
+            rep.not_shown("correspondence: mu_boundary after update_mu_boundary differs from Model.Step.update_mu_boundary",
+                          {"call": k, "script": script[:k + 1], "max_abs_diff": float(np.max(np.abs(np.array(m, dtype=float) - s)))})
+            break
+    rep.count(nseq)
+    rep.coverage["mu_boundary_calls_compared"] = rep.coverage.get("mu_boundary_calls_compared", 0) + nseq
+    rep.coverage.setdefault("mu_boundary_sum_paths", []).append("compensated" if comp == "true" else "plain")
+    return bad
+
+
 def acceptance(rep, rng, dev, n):
     """Every balanced assignment must be accepted (and the same float test is what the model's
     accepts_currents evaluates: compared in c19 as well)."""
@@ -185,6 +251,8 @@ def run(rep: common.Report, tier: str, seed: int, replay=None) -> int:
     devh.make_mesh(max_edge_length=0.7, smooth=2)
     run_case(rep, rng, 101, devh, cfgh, model_records=False)
     dev4 = meshes.make_device(rng, holes=0, terminals=4, max_edge_length=1.6)
+    ndis += mu_boundary_corr(rep, rng, dev4, tier)
+    ndis += mu_boundary_corr(rep, rng, dev4, tier, numpy_scalars=True)
     acceptance(rep, rng, dev4, 120 if tier == "quick" else 1500)
     rep.coverage.update({"runs": len(plans), "step_records_compared_with_model": len(recs_all),
                          "correspondence_disagreements": ndis})
